@@ -352,10 +352,15 @@ fn analyse(x: Mat, kind: &str, scale: f64) -> Data {
 }
 
 fn draw_data<T: RealNumber>(c: &mut Case, kind: &str, scaled: bool) -> Data {
-    let n = draw_n(&mut c.rng);
-    let d = c.rng.us(1, 6);
+    // "tiny-capped": 5..10 rows in 1..2 dimensions, fitted many times with k = 3..4 and an iteration limit of 1..2
+    // (clusters that run empty in the last assignment pass)
+    let tiny = kind == "tiny-capped";
+    let n = if tiny { c.rng.us(5, 10) } else { draw_n(&mut c.rng) };
+    let d = if tiny { c.rng.us(1, 2) } else { c.rng.us(1, 6) };
     let kind = if kind == "any" { *c.rng.pick(&KINDS) } else { kind };
-    let base = if kind == "near-duplicates" { *c.rng.pick(&["continuous", "clustered", "duplicates", "lattice"]) } else { kind };
+    let base = if tiny {
+        *c.rng.pick(&["continuous", "lattice", "clustered"])
+    } else if kind == "near-duplicates" { *c.rng.pick(&["continuous", "clustered", "duplicates", "lattice"]) } else { kind };
     let mut x = gen_rows(&mut c.rng, base, n, d);
     let mut scale = 1.0;
     if scaled {
@@ -683,9 +688,13 @@ fn fit_case_t<T: W>(c: &mut Case, kind: &str, scaled: bool) {
         c.skip("squared distances of the rescaled data would come within 1e3 of the overflow threshold of the float width");
         return;
     }
+    let tiny = kind == "tiny-capped";
+    let fits = if tiny { 100 } else { FITS_PER_DATASET };
     let drawn_k = c.rng.us(2, 8.min(dat.distinct));
-    let k = if kind == "multiplicities" && dat.distinct >= 3 && drawn_k % 4 != 0 { 3 } else { drawn_k };
-    let max_iter = {
+    let k = if tiny { c.rng.us(3, 4).min(dat.distinct) } else if kind == "multiplicities" && dat.distinct >= 3 && drawn_k % 4 != 0 { 3 } else { drawn_k };
+    let max_iter = if tiny {
+        c.rng.us(1, 2)
+    } else {
         let r = if kind == "multiplicities" { 0.5 + 0.5 * c.rng.f() } else { c.rng.f() };
         if r < 0.3 {
             c.rng.us(1, 3)
@@ -697,7 +706,7 @@ fn fit_case_t<T: W>(c: &mut Case, kind: &str, scaled: bool) {
     };
     let nq = c.rng.us(4, 24);
     c.describe(json!({"op": "fit+predict", "width": width::<T>(), "kind": dat.kind, "scale": dat.scale, "k": k, "max_iter": max_iter,
-        "distinct_rows": dat.distinct, "fits": FITS_PER_DATASET, "X": mat_json(&dat.x)}));
+        "distinct_rows": dat.distinct, "fits": fits, "X": mat_json(&dat.x)}));
     hash_case::<T>(c, &dat, &[k as f64, max_iter as f64]);
     c.bucket(&format!("k:{}", k));
     c.bucket(if max_iter == 1 {
@@ -723,7 +732,7 @@ fn fit_case_t<T: W>(c: &mut Case, kind: &str, scaled: bool) {
     let tn = tau_near::<T>();
     let mut proper_mean = false;
     let mut outcomes: Vec<Vec<u64>> = Vec::new();
-    for _fit in 0..FITS_PER_DATASET {
+    for _fit in 0..fits {
         // query recipes first (the number of draws must not depend on what the fit returned)
         let queries: Vec<Query> = (0..nq)
             .map(|_| Query { kind: c.rng.below(5), a: c.rng.f(), b: c.rng.f(), w: c.rng.f(), z: (0..d).map(|_| c.rng.normal()).collect() })
@@ -1118,6 +1127,7 @@ fit_family!(fit_clustered, "clustered", false, 0.2);
 fit_family!(fit_duplicates, "duplicates", false, 0.2);
 fit_family!(fit_collinear, "collinear", false, 0.2);
 fit_family!(fit_geometric, "geometric", false, 0.2);
+fit_family!(fit_tiny_capped, "tiny-capped", false, 0.2);
 fit_family!(fit_near_duplicates, "near-duplicates", false, 0.3);
 fit_family!(fit_scaled, "any", true, 0.2);
 fit_family!(fit_multiplicities, "multiplicities", false, 0.2);
@@ -1177,6 +1187,7 @@ fn main() {
             Family::new("fit_duplicates", 700, 21000, fit_duplicates),
             Family::new("fit_collinear", 500, 15000, fit_collinear),
             Family::new("fit_geometric", 300, 9000, fit_geometric),
+            Family::new("fit_tiny_capped", 500, 8000, fit_tiny_capped),
             Family::new("fit_near_duplicates", 300, 6000, fit_near_duplicates),
             Family::new("fit_scaled", 600, 18000, fit_scaled),
             Family::new("fit_multiplicities", 1500, 40000, fit_multiplicities),
